@@ -359,6 +359,10 @@ def c02(tier, seed):
         for p in paths:
             for q in queries:
                 urls.append(("https://%s:{port}%s%s" % (h, p, q), cfg))
+    # a domain host is resolved by the configured resolver: the connection goes where IT says (address and
+    # port), while the request carries the URL's own authority
+    for u_ in ("https://a.b-c.example:9/via/resolver?p=1", "https://localhost:65000/", "https://resolver.test:1"):
+        urls.append((u_, {}))
     if _can_bind_443():
         for h in ("127.0.0.1", "localhost"):
             urls.append(("https://%s/" % h, {"port": 443}))
@@ -392,9 +396,12 @@ def c02(tier, seed):
            [("origin", "https://\u00fc.example"), ("x-mixed", "a\u00e9\u4e16\U0001F600z")]]
     front = [(urls[1][0], urls[1][1], utf[0], "accept", utf[1]), (urls[2][0], urls[2][1], utf[1], "accept_headers", utf[0]),
              (urls[3][0], urls[3][1], utf[0], "forbidden", utf[1]), (urls[4][0], urls[4][1], utf[1], "accept", [])]
+    byurl = {u_: c for (u_, c) in urls}
+    front += [(u_, byurl[u_], header_sets[3 + i], decisions[i % 2], []) for i, u_ in
+              enumerate(("https://a.b-c.example:9/via/resolver?p=1", "https://localhost:65000/", "https://resolver.test:1"))]
     combos = front + combos
     if tier == "quick":
-        combos = combos[:12] + pick(rng, combos[12:], 50)
+        combos = combos[:15] + pick(rng, combos[15:], 50)
     out = []
     for n, (url, cfg, hdrs, decision, extra) in enumerate(combos):
         role = "client" if n % 2 == 0 else "server"
